@@ -58,6 +58,8 @@ type item struct {
 	bad  *construct // elem: nested construct (node contains a Raw); construct: top-level
 	raw  string
 	prog readProg
+	// the element's text contains an empty CDATA section
+	emptyCDATA bool
 }
 
 type tcase struct {
@@ -245,6 +247,15 @@ func genCase(t *rapid.T) tcase {
 				insertRaw(t, node, it.bad.raw)
 			}
 			it.raw = string(node.Bytes(ns))
+			if it.bad == nil && rapid.IntRange(0, 3).Draw(t, "respell") == 0 {
+				// the same element with its character data in other XML spellings
+				// (CDATA sections - also empty ones -, character references,
+				// several runs): more and other tokens, the same content
+				it.raw = string(xt.Respell([]byte(it.raw), uint32(rapid.IntRange(0, 1<<20).Draw(t, "respellSalt"))))
+				if strings.Contains(it.raw, "<![CDATA[]]>") {
+					it.emptyCDATA = true
+				}
+			}
 			it.prog = genProg(t)
 		case k <= 8:
 			it.kind = "ws"
@@ -505,6 +516,7 @@ func check(t interface {
 	type exp struct {
 		node *xt.Node
 		bad  *construct
+		raw  string
 	}
 	var want []exp
 	responseServed := false // the response was reached before the stream ended
@@ -519,7 +531,7 @@ loop:
 		case "response":
 			responseServed = true
 		case "elem":
-			want = append(want, exp{it.node, it.bad})
+			want = append(want, exp{it.node, it.bad, it.raw})
 			if it.bad == nil && it.prog.retErr != "" {
 				// the handler itself returns an error: the stream ends here
 				end = "error"
@@ -627,8 +639,19 @@ loop:
 			if !canonPrefix(gotC, xt.CanonTokens(all)) {
 				fail("invocation %d: handler read %s which is not a prefix of %s", i, gotC, xt.CanonTokens(all))
 			}
-			if len(iv.toks) > len(all) {
-				fail("invocation %d: handler read %d tokens, element has only %d", i, len(iv.toks), len(all))
+			// (the number of tokens is that of an independent pass over the
+			// element's bytes: character data may be spelled in several runs)
+			ntok := -1
+			for d := xml.NewDecoder(strings.NewReader(w.raw)); ; ntok++ {
+				if _, err := d.RawToken(); err != nil {
+					break
+				}
+			}
+			if ntok < len(all) {
+				ntok = len(all)
+			}
+			if len(iv.toks) > ntok {
+				fail("invocation %d: handler read %d tokens, element has only %d", i, len(iv.toks), ntok)
 			}
 		default: // all, allplus
 			if gotC != xt.CanonTokens(all) {
@@ -691,6 +714,9 @@ func canonPrefix(got, want string) bool {
 func classify(tc tcase) (nontrivial bool, classes []string) {
 	elems, partial, nested := 0, 0, 0
 	for _, it := range tc.items {
+		if it.emptyCDATA {
+			classes = append(classes, "element-with-empty-CDATA-section")
+		}
 		switch it.kind {
 		case "elem":
 			elems++
